@@ -1,7 +1,18 @@
 /* C20 harness, mpt++ objects: layout::graph::axis, layout::line, layout::text, layout::graph,
  * layout::graph::world (mpt++/layout.cpp, mpt++/graph.cpp) driven through object::set_property /
  * object::property and the objects' own convert() as generic-assignment source; colour print (operator<<
- * of mpt++/color.cpp) + parse again.  Case language and tokens: c20_ops.h (same as c20_layout.c). */
+ * of mpt++/color.cpp) + parse again.  Case language and tokens: c20_ops.h (same as c20_layout.c).
+ *
+ * Operations only this harness knows (hook h_xop):
+ *   clone <t> | cpy <t> | cset <t> <value|font|alias|lfont|tmeta> <text> | conv <t> <request> | lreset <t>
+ *   oset <t> <L|N>          object::set(other object, logger | none): every property of the other object by value -> B<bool>
+ *   graph:  gadd <t> <axis|world> <name> | gitem <t> <type> <name> <prop|N> <T text> | gbind <t> (bind(0,0)) | gbindl <t> (with a
+ *           logger) | gbindo <t> (names looked up among the items of the other graph) | gtr <t> (update_transform, flags,
+ *           dimensions, limits taken from the bound axes) | gview <t> (items, bound axes / worlds with all properties)
+ *           gcyc <t> <pos> (cycle of a bound world: stage count) | gscyc <t> <pos> (set_cycle)
+ *   layout: lload <t> <n> <entry>*n  (entries  p:<name>:<T text> | i:<section key> | e | r:<raw text>  are written to a file,
+ *           layout::open + load read it) | lagain <t> (load() again) | lopen <t> <N|X> (open(0) / open(no such file))
+ *           -> L<bool>:<items with properties; graphs: own items, bound axes / worlds>/<graph list>/<minimal_scale> */
 #include "common.h"
 #include <errno.h>
 #include <sstream>
@@ -153,6 +164,7 @@ public:
 		char buf[1024];
 		(void) from; (void) type;
 		if (fmt) vsnprintf(buf, sizeof(buf), fmt, va);
+		if (fmt && getenv("C20_DEBUG")) fprintf(stderr, "[log %d %s] %s\n", type, from ? from : "", buf);
 		++count;
 		return 0;
 	}
